@@ -394,6 +394,15 @@ func c08Run(e *Env) {
 					e.Logf("notifier produces obs%d id=%d seq=%d", o.idx, note.id, note.seq)
 				}})
 			}
+			if o.call != nil && !o.call.Done() && !o.call.Cancelled && o.regSeen && !o.regAnswered {
+				// the application gives up on a registration whose answer is still on its way: the registration has
+				// failed, and neither the late answer nor the notifications that follow may reach the callback
+				evs = append(evs, Event{Label: "abandon-registration", W: 1, Do: func() {
+					e.Fault("ctx.registrationAbandoned")
+					e.Logf("application cancels the context of the pending registration of obs%d", o.idx)
+					e.CancelCall(o.call)
+				}})
+			}
 			if o.registered && !o.cancelStarted {
 				evs = append(evs, Event{Label: "cancel", W: 1, Do: func() {
 					o.cancelStarted = true
